@@ -85,9 +85,12 @@ impl Model {
                 // Memory limit exceeded during variable creation - set flag via setter
                 self.set_memory_limit_exceeded();
                 
-                // Return a dummy VarId to keep the API consistent
-                // The solve() method will detect memory_limit_exceeded and return proper error
-                VarId::from_index(0)
+                // Hand out a valid handle to keep the API consistent: a fresh one-value placeholder
+                // (VarId(0) need not exist, and posting methods read the bounds of their operands).
+                // Every solving entry point detects memory_limit_exceeded and returns the proper error
+                self.props_mut().on_new_var();
+                let step_size = self.float_step_size();
+                self.vars_mut().new_var_with_bounds_and_step(min, min, step_size)
             }
         }
     }
